@@ -1077,5 +1077,111 @@ class SaveConfigs(Unit):
                 rec.violation("flavour:table-bytes:%s" % (t if t in ("head", "hmtx", "maxp", "hhea") else "other"), "%s: table %r differs from the sfnt save of the same configuration (%d vs %d bytes)" % (ctx, t, len(a), len(b)))
 
 
+# =============================================================================== E3 pipeline outputs
+class PipelineOutputs(Unit):
+    """Fonts written by the other operations of the library (subset, instancer, varLib.build, merge),
+    judged on their saved bytes like every other saved file."""
+
+    name = "pipeline-outputs"
+    rule = ("every output of the pipeline set of oracles/pipelines.py that is a font file: subset (corpus subset inputs + generated pool x 4 option sets, character-pair subsettings, "
+            "and the same inputs with --recalc-bounds), instancer (3 limit kinds), varLib.build (corpus + generated designspaces), merge, flavoured saves: otspec reads the container without any problem; "
+            "glyf/loca readable; numGlyphs, metric counts, indexToLocFormat consistent; for operations that save with recalcBBoxes (all but a subset without --recalc-bounds) every stored derived field "
+            "(glyph and font bbox, maxp profile, hhea/vhea extents) equals the recomputation from the saved glyph data; distinct = each item")
+    chunk = 6
+    required_witnesses = ("subset output", "instance output", "varlib-build output", "merge output", "derived fields recomputed", "subset with --recalc-bounds")
+    KINDS = ("subset", "subset-pair", "instance", "varlib-build", "merge", "flavor")
+
+    def setup(self, tier, seed):
+        from oracles import pipelines
+
+        self.items = [(n, t) for n, t in pipelines.items() if n.split(":")[0] in self.KINDS]
+        self.names = [n for n, _t in self.items]
+
+    def cases(self, tier, seed):
+        for i, n in enumerate(self.names):
+            if tier == "quick" and n.startswith("subset-pair") and (h64(n) + seed) % 4:
+                continue
+            yield [i, n, False]
+            if n.startswith("subset:") and n.endswith(":default"):
+                yield [i, n, True]
+
+    def bounds(self, tier, seed):
+        import collections
+
+        return {"items": dict(collections.Counter(n.split(":")[0] for n in self.names))}
+
+    def check(self, case, rec):
+        i, name, recalc = case
+        kind = name.split(":")[0]
+        thunk = self.items[i][1]
+        if recalc:
+            # the same subsetting with --recalc-bounds: patch the option default for this one run
+            from fontTools import subset
+
+            orig = subset.Options.__init__
+
+            def init(self_, *a, **k):
+                orig(self_, *a, **k)
+                self_.recalc_bounds = True
+
+            subset.Options.__init__ = init
+            try:
+                out = thunk()
+            except Exception as e:
+                rec.count("pipeline item raised %s (not a saved file)" % type(e).__name__)
+                return
+            finally:
+                subset.Options.__init__ = orig
+            rec.witness("subset with --recalc-bounds")
+        else:
+            try:
+                out = thunk()
+            except Exception as e:
+                rec.count("pipeline item raised %s (not a saved file)" % type(e).__name__)
+                return
+        rec.transition()
+        ctx = "pipeline output %s%s" % (name, " --recalc-bounds" if recalc else "")
+        c = otspec.parse_container(out)
+        report_problems(rec, c, ctx, suffix=":" + kind)
+        T = c.tables
+        rec.witness({"subset-pair": "subset"}.get(kind, kind) + " output")
+        tt = "glyf" in T and "loca" in T and "head" in T
+        problems, glyphs = [], None
+        if tt:
+            try:
+                glyphs = otspec.glyf_glyphs(T, problems)
+            except (otspec.OTSpecError, struct.error) as e:
+                rec.violation("pipeline:glyf:unreadable:" + kind, "%s: %s" % (ctx, e))
+                return
+            for p_ in problems:
+                rec.violation("pipeline:glyf:%s:%s" % (p_.split(":", 1)[0], kind), "%s: %s" % (ctx, p_))
+        try:
+            D = otspec.recompute_derived(T, glyphs)
+            S = otspec.stored_derived(T, glyphs)
+        except (otspec.OTSpecError, struct.error) as e:
+            rec.violation("pipeline:derived:unreadable:" + kind, "%s: %s" % (ctx, e))
+            return
+        for p_ in D["problems"]:
+            rec.violation("pipeline:derived:%s:%s" % (p_.split(":", 1)[0], kind), "%s: %s" % (ctx, p_))
+        rb = recalc or kind not in ("subset", "subset-pair")
+        if rb and tt:
+            demanded = [k for k in S if k in D]
+        elif rb:
+            demanded = [k for k in ("numGlyphs", "hhea.advanceMax", "vhea.advanceMax") if k in S and k in D]
+        else:
+            demanded = [k for k in ("numGlyphs", "head.indexToLocFormat") if k in S and k in D]
+        for k in demanded:
+            if S[k] != D[k]:
+                if k == "glyph_bboxes":
+                    bad = [(j, S[k][j], D[k][j]) for j in range(len(S[k])) if S[k][j] != D[k][j]][:2]
+                    rec.violation("pipeline:derived:glyph-bbox:" + kind, "%s: glyph boxes (index, stored, recomputed) %r" % (ctx, bad))
+                else:
+                    rec.violation("pipeline:derived:%s:%s" % (k, kind), "%s: stored %s = %r, recomputed from the saved data %r" % (ctx, k, S[k], D[k]), observed=S[k], expected=D[k])
+        if rb and tt and len(demanded) > 3:
+            rec.witness("derived fields recomputed")
+        rec.outcome(h64(out))
+        rec.nontrivial()
+
+
 def units():
-    return [WriterProtocol(), TTCSave(), SaveConfigs()]
+    return [WriterProtocol(), TTCSave(), SaveConfigs(), PipelineOutputs()]
